@@ -362,6 +362,10 @@ func init() {
 			{T("INDI", "", "I1", T("NAME", "@I1@", ""), T("123", "0", "p q"), T("BIRT", "", "", T("DATE", "12 NOTE x", "")))},
 			{T("NOTE", "", "", T("INDI", "", "I5", T("SEX", "M", "", T("NOTE", "child of sex", ""))))},
 		}
+		// very long values: the property puts no limit on string length
+		for _, n := range []int{4095, 4096, 65535, 65536, 70000, c.N(200000, 2000000)} {
+			corpus = append(corpus, []*TNode{T("HEAD", "", ""), T("NOTE", strings.Repeat("x", n-1)+"y", "N1", T("CONT", strings.Repeat("z ", n/2)+"w", ""))})
+		}
 		for _, f := range corpus {
 			decRoundTrip(c, f, false)
 			decRoundTrip(c, f, true)
